@@ -182,7 +182,7 @@ class Log:
 
     def fail(self, oracle, key, detail, step=None):
         """oracle: oracle id; key: stable identity of what failed (op kind / site / fault class)"""
-        f = {"oracle": oracle, "key": key, "detail": str(detail)[:1500], "step": step}
+        f = {"oracle": oracle, "key": key, "detail": str(detail)[:4000], "step": step}
         self.failures.append(f)
         self.ev("FAIL", oracle=oracle, key=key, step=step)
         return f
